@@ -17,10 +17,13 @@ import (
 
 	"github.com/NVIDIA/KAI-scheduler/pkg/scheduler"
 	"github.com/NVIDIA/KAI-scheduler/pkg/scheduler/actions"
+	"github.com/NVIDIA/KAI-scheduler/pkg/scheduler/api/common_info"
 	"github.com/NVIDIA/KAI-scheduler/pkg/scheduler/api/eviction_info"
 	"github.com/NVIDIA/KAI-scheduler/pkg/scheduler/api/pod_info"
 	"github.com/NVIDIA/KAI-scheduler/pkg/scheduler/api/podgroup_info"
+	"github.com/NVIDIA/KAI-scheduler/pkg/scheduler/api/queue_info"
 	schedcache "github.com/NVIDIA/KAI-scheduler/pkg/scheduler/cache"
+	usageapi "github.com/NVIDIA/KAI-scheduler/pkg/scheduler/cache/usagedb/api"
 	"github.com/NVIDIA/KAI-scheduler/pkg/scheduler/conf"
 	"github.com/NVIDIA/KAI-scheduler/pkg/scheduler/framework"
 	schedlog "github.com/NVIDIA/KAI-scheduler/pkg/scheduler/log"
@@ -215,6 +218,19 @@ type SchedConfig struct {
 	StaleGraceSec         int               `json:"stale_grace_s"`
 	QueueDepth            map[string]int    `json:"queue_depth,omitempty"`
 	DropPlugins           []string          `json:"drop_plugins,omitempty"`
+	// Usage: historical usage per queue, normalised to cluster capacity (gpu, cpu, memory), served by a usage-db stub
+	Usage map[string][3]float64 `json:"usage,omitempty"`
+}
+
+// simUsageDB is the usage database of the simulation (time-based fair share, C09).
+type simUsageDB struct{ usage map[string][3]float64 }
+
+func (u *simUsageDB) GetResourceUsage() (*queue_info.ClusterUsage, error) {
+	cu := queue_info.NewClusterUsage()
+	for q, v := range u.usage {
+		cu.Queues[common_info.QueueID(q)] = queue_info.QueueUsage{GPUResource: v[0], corev1.ResourceCPU: v[1], corev1.ResourceMemory: v[2]}
+	}
+	return cu, nil
 }
 
 func DefaultSchedConfig() SchedConfig {
@@ -277,6 +293,22 @@ func (c SchedConfig) build() (*conf.SchedulerConfiguration, *conf.SchedulerParam
 	return sc, params
 }
 
+func usageClient(cfg SchedConfig) usageapi.Interface {
+	if cfg.Usage == nil {
+		return nil
+	}
+	return &simUsageDB{usage: cfg.Usage}
+}
+
+func usageParams(cfg SchedConfig) *usageapi.UsageParams {
+	if cfg.Usage == nil {
+		return nil
+	}
+	p := &usageapi.UsageParams{}
+	p.SetDefaults()
+	return p
+}
+
 type SchedActor struct {
 	API        *SimAPI
 	Clients    *Clients
@@ -300,6 +332,8 @@ func NewSchedActor(api *SimAPI, cfg SchedConfig, hooks SessionHooks) *SchedActor
 		AllowConsolidatingReclaim:   params.AllowConsolidatingReclaim,
 		NumOfStatusRecordingWorkers: 1,
 		DiscoveryClient:             &fakediscovery.FakeDiscovery{Fake: &k8stesting.Fake{}},
+		UsageDBClient:               usageClient(cfg),
+		UsageDBParams:               usageParams(cfg),
 	})
 	obs := &obsCache{Cache: real}
 	a := &SchedActor{API: api, Clients: cl, Obs: obs, stopCh: make(chan struct{})}
